@@ -203,6 +203,9 @@ def one_case(ctx, cls_name, cls, kind, labels, make, old_idx, new_idx, opts):
         return
     # span of the result is the new span
     rs = res.__dict__['span']
+    if type(rs) is not type(new_span):
+        ctx.violation('reindex-span', f'the result\'s span is a {type(rs).__name__}; the span given to reindex() is a {type(new_span).__name__} ({kind})', case)
+        return
     if len(rs) != len(new_idx) or not all(x == y for x, y in zip(rs, [labels[i] for i in new_idx])):
         ctx.violation('reindex-span', f'result span {list(rs)} is not the requested span {[labels[i] for i in new_idx]}', case)
         return
